@@ -55,6 +55,14 @@ func drawCrashes(t *rapid.T, nprocs int, maxAt int) []Crash {
 }
 
 func genC05(t *rapid.T) Case {
+	c := genC05base(t)
+	if rapid.IntRange(0, 7).Draw(t, "cancelFamily") == 5 {
+		cancelFamily(t, &c, c.Cfg.HashSize())
+	}
+	return c
+}
+
+func genC05base(t *rapid.T) Case {
 	c := Case{Cfg: drawConcCfg(t)}
 	hs := c.Cfg.HashSize()
 	c.InitAuto, c.Init = drawInit(t, 6, hs, c.Cfg.Exact)
